@@ -1,7 +1,7 @@
 (* kind life: the life cycle of the real smtp.Server (harness/genlife.go)
    against the model ServerLife.v, and against property C20's text.
 
-   (life (ops conn temp perm close shutdown (finish n<k>) expire ...)
+   (life (ops conn temp perm close shutdown wclose wshutdown (finish n<k>) expire ...)
          (obs (skip)|(accepted)|(delay n<ms>)|(serveret r)|(ret r)|(pending)|
               (sdret r)|(none)|(timeout) ...)
          (serve running|nil|err|other) (conns open|closed|finished ...)
@@ -15,8 +15,13 @@ Local Open Scope N_scope.
 Inductive oobs := OB (b : obs) | OTimeout | OOther.
 
 (* a harness operation: `conn` hands a connection to Accept AND waits for the
-   greeting, i.e. for the handler to have registered the connection *)
-Inductive hop := HConn | HOp (o : op).
+   greeting, i.e. for the handler to have registered the connection;
+   `wclose` / `wshutdown` run Close / Shutdown with a connection in the window
+   between Accept's return and its handler's registration (the scripted
+   listener hands the connection over from inside its Close, which the server
+   calls under s.locker after closing s.done; the handler registers when
+   Close / Shutdown has released s.locker) *)
+Inductive hop := HConn | HOp (o : op) | HCloseW | HShutdownW.
 
 Definition dec_op (x : sx) : option hop :=
   match x with
@@ -28,11 +33,11 @@ Definition dec_op (x : sx) : option hop :=
       else if sx_is "close" x then Some (HOp OClose)
       else if sx_is "shutdown" x then Some (HOp OShutdown)
       else if sx_is "expire" x then Some (HOp OExpire)
+      else if sx_is "wclose" x then Some HCloseW
+      else if sx_is "wshutdown" x then Some HShutdownW
       else None
   end.
 
-Definition hop_op (h : hop) : op :=
-  match h with HConn => OAccept AConn | HOp o => o end.
 
 Definition step_h (s : st) (h : hop) : st * obs :=
   match h with
@@ -43,6 +48,30 @@ Definition step_h (s : st) (h : hop) : st * obs :=
       | _ => (s1, b)
       end
   | HOp o => step s o
+  | HCloseW =>
+      (* Accept returns the connection (if Serve still accepts), Close runs,
+         then the handler gets s.locker *)
+      let s1 := fst (step s (OAccept AConn)) in
+      let '(s2, b) := step s1 OClose in
+      (fst (step s2 (ORegister (List.length (ServerLife.conns s)))), b)
+  | HShutdownW =>
+      let s1 := fst (step s (OAccept AConn)) in
+      let '(s2, b) := step s1 OShutdown in
+      let '(s3, b3) := step s2 (ORegister (List.length (ServerLife.conns s))) in
+      (* the call blocks until the handler of the window connection has
+         returned; seen from outside it just returns *)
+      (s3, match b, b3 with BPending, BShutdownRet r => BRet r | _, _ => b end)
+  end.
+
+(* was the window of a wclose / wshutdown actually arranged (tags only) *)
+Fixpoint count_windows (s : st) (l : list hop) : nat :=
+  match l with
+  | [] => O
+  | h :: r =>
+      ((match h with
+        | HCloseW | HShutdownW => if serving s && negb (lis_closed s) then 1 else 0
+        | _ => 0
+        end) + count_windows (fst (step_h s h)) r)%nat
   end.
 
 Fixpoint run_h (s : st) (l : list hop) : st * list obs :=
@@ -166,7 +195,7 @@ Definition is_ob (o : oobs) (b : obs) : bool :=
 Definition flag (m : mon) (ok : bool) : mon :=
   mkMon (m_stopped m) (m_closed m) (m_gone m) (m_conns m) (m_pending m) (m_bad m || negb ok).
 
-Definition mon_step (m : mon) (o : op) (b : oobs) : mon :=
+Definition mon_op (m : mon) (o : op) (b : oobs) : mon :=
   match b with
   | OTimeout | OOther => flag m false   (* something hung, or an unknown error came back *)
   | _ =>
@@ -222,7 +251,22 @@ Definition mon_step (m : mon) (o : op) (b : oobs) : mon :=
   end
   end.
 
-Fixpoint mon_run (m : mon) (ops : list op) (bs : list oobs) : mon :=
+(* a connection accepted while Close / Shutdown is under way must be ended by
+   the server (Close "ends every connection", Shutdown "stops accepting"): it
+   enters the monitor as not active; mon_final checks it was not left open *)
+Definition mon_window (m : mon) : mon :=
+  if m_stopped m || m_gone m then m   (* Serve accepts nothing: no window *)
+  else mkMon (m_stopped m) (m_closed m) (m_gone m) (m_conns m ++ [false]) (m_pending m) (m_bad m).
+
+Definition mon_step (m : mon) (h : hop) (b : oobs) : mon :=
+  match h with
+  | HConn => mon_op m (OAccept AConn) b
+  | HOp o => mon_op m o b
+  | HCloseW => mon_op (mon_window m) OClose b
+  | HShutdownW => mon_op (mon_window m) OShutdown b
+  end.
+
+Fixpoint mon_run (m : mon) (ops : list hop) (bs : list oobs) : mon :=
   match ops, bs with
   | o :: ops', b :: bs' => mon_run (mon_step m o b) ops' bs'
   | [], [] => m
@@ -231,15 +275,24 @@ Fixpoint mon_run (m : mon) (ops : list op) (bs : list oobs) : mon :=
 
 Definition mon_init : mon := mkMon false false false [] false false.
 
+Fixpoint ended_not_open (active : list bool) (conns : list sx) : bool :=
+  match active, conns with
+  | a :: ar, c :: cr => (a || negb (sx_is "open" c)) && ended_not_open ar cr
+  | _, _ => true
+  end.
+
 (* final check: after Close/Shutdown Serve has returned nil; after a
    permanent error it returned that error; after Close no connection is
-   still open; otherwise it is still running *)
+   still open; a connection that has ended (peer left, closed by Close,
+   accepted during Close / Shutdown) is not open; otherwise Serve is still
+   running *)
 Definition mon_final (m : mon) (serve : sx) (conns : list sx) : bool :=
   (if m_stopped m then
      sx_is "nil" serve || sx_is "err" serve     (* err: it had already returned *)
    else if m_gone m then sx_is "err" serve
    else sx_is "running" serve) &&
-  (if m_closed m then forallb (fun c => negb (sx_is "open" c)) conns else true).
+  (if m_closed m then forallb (fun c => negb (sx_is "open" c)) conns else true) &&
+  ended_not_open (m_conns m) conns.
 
 Fixpoint count_delays (bs : list oobs) : nat :=
   match bs with
@@ -261,7 +314,7 @@ Definition check_life (args : list sx) : verdict :=
           let agree :=
             all_agree ms obl && sx_eqb (show_serve s) serve &&
             sx_eqb (SL (map show_conn (ServerLife.conns s))) (SL conns) in
-          let m := mon_run mon_init (map hop_op ops) obl in
+          let m := mon_run mon_init ops obl in
           let ok := negb (m_bad m) && mon_final m serve conns in
           let tags :=
             (if has_ob obl (BRet RNil) then [bs "stop"] else []) ++
@@ -272,7 +325,8 @@ Definition check_life (args : list sx) : verdict :=
             (if has_ob obl (BServeRet RAcceptErr) then [bs "perm-error"] else []) ++
             (if (0 <? count_delays obl)%nat then [bs "temp-error"] else []) ++
             (if (9 <=? count_delays obl)%nat then [bs "backoff-cap"] else []) ++
-            (if existsb (fun c => sx_is "closed" c) conns then [bs "conn-closed-by-close"] else []) in
+            (if existsb (fun c => sx_is "closed" c) conns then [bs "conn-closed-by-close"] else []) ++
+            (if (0 <? count_windows init ops)%nat then [bs "accept-window"] else []) in
           mkV true agree model (if ok then [] else [bs "C20"]) [] tags
       | _, _ => bad_case
       end
